@@ -628,13 +628,15 @@ def build_fgg(fggs, spec, semiring='real', dtype=None, *, explicit_ids=False, ru
         norder = list(range(len(r['nodes']))) if not node_orders else list(node_orders[ri])
         nodes = {}
         for vi in norder:
-            nid = f'r{ri}n{vi}' if explicit_ids else None
+            ex_n = explicit_ids if explicit_ids != 'mixed' else (ri + vi) % 2 == 0
+            nid = f'r{ri}n{vi}' if ex_n else None
             nodes[vi] = fggs.Node(nl[r['nodes'][vi]], id=nid) if nid else fggs.Node(nl[r['nodes'][vi]])
             g.add_node(nodes[vi])
         eorder = list(range(len(r['edges']))) if not edge_orders else list(edge_orders[ri])
         for ei in eorder:
             lab, att = r['edges'][ei]
-            eid = f'r{ri}e{ei}' if explicit_ids else None
+            ex_e = explicit_ids if explicit_ids != 'mixed' else (ri + ei) % 3 != 0
+            eid = f'r{ri}e{ei}' if ex_e else None
             e = fggs.Edge(el[lab], [nodes[v] for v in att], id=eid) if eid else fggs.Edge(el[lab], [nodes[v] for v in att])
             g.add_edge(e)
             edge_objs[ri, ei] = e
